@@ -34,6 +34,8 @@ def o08_2(tier):
                     else:
                         vd[ids[i]] = vs[i]
                 got = [ctx.list_of(e) for e in ctx.list_of(ctx.call(ctx.get(ve, "create_edges_new"), vd, ctx.dict([(1, cell)])))]
+                if ctx.mode != "sym":
+                    ctx.set(cell, "vertices", [])      # nothing for CPython's finaliser of the hand-made Cell to unregister
                 pos = [i for i in range(n) if flags[i]]
                 want = []
                 for a, p in enumerate(pos):
@@ -76,6 +78,9 @@ def o08_3(tier):
         c1 = ctx.alloc(C, id=1, vertices=[vs[0], vs[1], vs[2], vs[3], vs[4]])
         c2 = ctx.alloc(C, id=2, vertices=[vs[2], vs[1], vs[0], vs[5], vs[6], vs[7]])
         got = [ctx.list_of(e) for e in ctx.list_of(ctx.call(ctx.get(ve, "create_edges_new"), vd, ctx.dict([(1, c1), (2, c2)])))]
+        if ctx.mode != "sym":
+            ctx.set(c1, "vertices", [])
+            ctx.set(c2, "vertices", [])
         ctx.ensure(len(got) == 3, "shared interface listed once: 3 interfaces in total")
         ctx.ensure(ctx.And(*[ctx.eq(a, b) for a, b in zip(got[0], [ids[0], ids[1], ids[2]])]) and len(got[0]) == 3, "first occurrence (first cell's direction) is the one kept")
     return [("two-cells-shared-path", h)]
